@@ -125,6 +125,22 @@ def ref_type(design, cls, r):
   return t
 
 
+def struct_const(design, t, rng):
+  """a random constant of type t -> (constructor text, packed value); first field most significant, list element 0 least"""
+  if isinstance(t, int):
+    v = rng.choice([rng.getrandbits(t), 1, mask(t)]) & mask(t)
+    return bits_ctor(t, v), v
+  if t[0] == "list":
+    ew = twidth(design, t[2])
+    parts = [struct_const(design, t[2], rng) for _ in range(t[1])]
+    return "[" + ", ".join(p_[0] for p_ in parts) + "]", sum(p_[1] << (i * ew) for i, p_ in enumerate(parts))
+  txt, val = [], 0
+  for fn, ft in design["types"][t[1]]:
+    tx, v = struct_const(design, ft, rng)
+    txt.append(f"{fn}={tx}"); val = (val << twidth(design, ft)) | v
+  return f"{t[1]}(" + ", ".join(txt) + ")", val
+
+
 def field_range(design, t, fname):
   """(lo, width) of a top-level field inside the packed struct; first field most significant"""
   for st, lo, ft in subobjects(design, t):
@@ -397,7 +413,7 @@ def emit_stmts(stmts, ind, kind, out, op=None):
 
 def emit_connect(dst, src, style):
   d = ref_text(dst)
-  sv = str(src["const"]) if "const" in src else ref_text(src)
+  sv = src.get("name", str(src["const"])) if "const" in src else ref_text(src)          # "name": a struct constant bound to a local
   if style == 0: return f"{d} //= {sv}"
   if style == 1 and "const" not in src: return f"{sv} //= {d}"
   if style == 2: return f"connect({d}, {sv})"
@@ -433,6 +449,8 @@ def emit(design, connect_order=None, connect_style=None, block_order=None):
       L.append(f"    s.{iname} = {ccn}()")
     for fvn, fvv in sorted(c.get("freevars", {}).items()):
       L.append(f"    {fvn} = {fvv}")
+    for sc in c.get("sconsts", []):
+      L.append(f"    {sc['name']} = {sc['text']}")
     order = list(range(len(c["connects"])))
     if connect_order and cn in connect_order: order = connect_order[cn]
     for i in order:
@@ -1273,6 +1291,17 @@ class Gen:
       # tie the signal to a constant (small non-zero values preferred: they coincide with live values of other nets)
       cv = rng.choice([1, 2, 3, mask(p["w"]), rng.getrandbits(p["w"])]) & mask(p["w"])
       cls["connects"].append([p, {"const": cv}]); return
+    if whole and not isinstance(t, int) and t[0] == "struct" and rng.random() < k.get("p_const_struct", 0) * (2 if child else 1):
+      # tie a whole struct signal to a struct CONSTANT bound to a local name; the same constant object may drive several signals
+      scs = cls.setdefault("sconsts", [])
+      same = [sc for sc in scs if sc["type"] == t]
+      if same and rng.random() < 0.7:
+        sc = rng.choice(same)
+      else:
+        tx, v = struct_const(self.design, t, rng)
+        sc = {"name": f"KS{len(scs)}", "type": t, "text": tx, "value": v}
+        scs.append(sc)
+      cls["connects"].append([p, {"const": sc["value"], "name": sc["name"]}]); return
     if rng.random() < k["p_connect"] + (0.2 if child else 0):
       # connect: need an equal-width (and, for whole structs, equal-type) source
       cands = list(srcs)
